@@ -116,8 +116,15 @@ def book_evict(repo: Repo) -> List[Ob]:
             mc = method_call(x)
             if mc and mc[1] == "remove" and src(mc[0]) == "self.state_objs" and x.args and isinstance(x.args[0], ast.Name):
                 sites.append((n, x.args[0].id))
-    if len(sites) < 2:
-        raise AnalysisError(f"BOOK-evict: {len(sites)} eviction sites in ProductState.measure (floor 2)")
+    if len(sites) < 1:
+        raise AnalysisError("BOOK-evict: no eviction site in ProductState.measure")
+    # one eviction per level branch: a measured member leaves its product space at both levels
+    n_loops = len([x for x in walk_no_nested(fi.node) if isinstance(x, ast.For) and "states" in src(x.iter)])
+    if len(sites) < n_loops:
+        obs.append(bad("BOOK-evict", fi, "evict-missing", ("C05", "C13", "C20"), fi.node,
+                       f"{n_loops} per-subsystem measurement loops but only {len(sites)} `self.state_objs.remove(<measured>)`: on one level branch a measured subsystem stays listed in its product space while the tensor no longer has its axis"))
+    else:
+        obs.append(ok("BOOK-evict", fi, "evict-present", ("C05", "C13", "C20"), fi.node, "every measurement loop evicts the measured member"))
     branch = {}
     for site, V in sites:
         loop = site.loops[-1] if site.loops else None
